@@ -38,7 +38,14 @@ func secureCase(w *core.Writer, id, kind string, n *TNode, r *core.Rand, pnil fl
 		v = p
 	}
 	x := v.Interface()
-	before := Abstract(tab, v)
+	// what Secure receives is the dynamic value of the `any` argument
+	abstractArg := func() string {
+		if x == nil {
+			return "(VIface None)"
+		}
+		return Abstract(tab, reflect.ValueOf(x))
+	}
+	before := abstractArg()
 	ob := secureObs{Type: n.String(), Before: jsonOf(x)}
 	var err error
 	func() {
@@ -57,7 +64,7 @@ func secureCase(w *core.Writer, id, kind string, n *TNode, r *core.Rand, pnil fl
 		ob.Result, o = "err", "ObsErr"
 	default:
 		ob.Result = "ok"
-		o = core.App("ObsOk", Abstract(tab, reflect.ValueOf(x)))
+		o = core.App("ObsOk", abstractArg())
 		text := jsonOf(x)
 		ob.After = text
 		for _, c := range vg.Canaries {
@@ -101,6 +108,7 @@ func main() {
 	nSecure := flag.Int("secure", 300, "random clone.Secure cases")
 	nPlans := flag.Int("plans", 12, "plans (each gives 10 clone cases and 1 render case)")
 	nReg := flag.Int("reg", 150, "registry cases")
+	nChains := flag.Int("chains", 80, "clone.Secure cases with a chain of 4..8 constructors above a secure leaf")
 	maxDepth := flag.Int("depth", 5, "max nesting depth of generated types")
 	out := flag.String("out", "-", "output file (JSONL)")
 	flag.Parse()
@@ -149,6 +157,25 @@ func main() {
 				idx++
 			}
 		}
+	}
+	// long chains of constructors (4..8) above a secure leaf of every kind
+	for i := 0; i < *nChains; i++ {
+		r := root.Fork(uint64(4000000 + i))
+		leaves := secureLeafKinds()
+		t := secretLeafStruct(leaves[i%len(leaves)], "Secret")
+		name := ""
+		for k, ln := 0, 4+i%5; k < ln; k++ {
+			for {
+				c := []K{KStruct, KPtr, KSlice, KMap, KIface}[r.Intn(5)]
+				if nt := wrap(c, t); nt != nil {
+					t = nt
+					name = kletter[c] + name
+					break
+				}
+			}
+		}
+		n := &TNode{Kind: KPtr, Elem: &TNode{Kind: KStruct, Fields: []TField{{Name: "F", Type: t}, {Name: "Keep", Type: &TNode{Kind: KStr}}}}}
+		secureCase(w, fmt.Sprintf("chain-%d-%s", i, name), "secure-chain", n, r, 0)
 	}
 	// static (named) types
 	staticCases(w, root.Fork(3000000))
@@ -304,9 +331,13 @@ func regExhaustive(w *core.Writer) {
 	ctors := []K{KStruct, KPtr, KSlice, KMap, KArray}
 	plain := &TNode{Kind: KStruct, Fields: []TField{{Name: "Name", Type: &TNode{Kind: KStr}}}}
 	i := 0
+	variant := 0
 	put := func(path string, t *TNode, ptr bool, tag TagKind, name string) {
 		tab := NewTable()
-		holder := &TNode{Kind: KStruct, Fields: []TField{{Name: "Name", Type: &TNode{Kind: KStr}}, {Name: "F", Type: t}}}
+		// the holder field is plain, or itself secret-looking with a tag (the walk must still look below it)
+		hf := []TField{{Name: "F", Type: t}, {Name: "Creds", Tag: TagSecure, TagText: `coerce:"secure"`, Type: t}, {Name: "KeyBox", Tag: TagIgnore, TagText: `coerce:"ignore"`, Type: t}}[variant%3]
+		variant++
+		holder := &TNode{Kind: KStruct, Fields: []TField{{Name: "Name", Type: &TNode{Kind: KStr}}, hf}}
 		for _, asReq := range []bool{true, false} {
 			req, resp := holder, plain
 			if !asReq {
